@@ -128,3 +128,37 @@ contract(
     ensures=["spec.logix.json_typed(result)", "sorted(result) == sorted(tags)", "result['u']['data_type']['internal_tags']['x']['offset'] == 0",
              "'type_class' not in result['u'] and 'type_class' not in result['u']['data_type']"],
     no_entry_check=True, props=["C05"])
+
+
+# ---- template parsing: member-info table + NUL separated names; symbolic offsets / array lengths / bit numbers,
+#      concrete names and type codes (one UDT with a packed BOOL and its hidden host member, one string type)
+UDT_SETUP = [
+    f"d = {LD}('10.0.0.1')", "d._cache = {'tag_name:id': {}, 'id:struct': {}, 'handle:id': {}, 'id:udt': {}}",
+    "info = (spec.logix.template_member_info(0, 0xC4, o1) + spec.logix.template_member_info(0, 0xC2, o2) + "
+    "spec.logix.template_member_info(bit, 0xC1, o2) + spec.logix.template_member_info(n, 0xC3, o3))",
+    "data = info + b'MyUdt;nABCDEFG\\x00x\\x00ZZZZZZZZZZMyUdt1\\x00flag\\x00arr\\x00'",
+    "template = {'object_definition_size': 30, 'structure_size': size, 'member_count': 4, 'structure_handle': 0x1234}"]
+contract(
+    id="upload.template.udt", func=LD + "._parse_template_data", call="d._parse_template_data(data, template, 0x8123)",
+    params={"o1": P.int(0, 2**32 - 1), "o2": P.int(0, 2**32 - 1), "o3": P.int(0, 2**32 - 1), "bit": P.int(0, 7), "n": P.int(1, 65535),
+            "size": P.int(1, 2**31)},
+    setup=UDT_SETUP,
+    ensures=["result['name'] == 'MyUdt'", "result['attributes'] == ['x', 'flag', 'arr']",
+             "list(result['internal_tags']) == ['x', 'ZZZZZZZZZZMyUdt1', 'flag', 'arr']",
+             "result['internal_tags']['x']['offset'] == o1 and result['internal_tags']['x']['data_type'] == 'DINT' and result['internal_tags']['x']['array'] == 0",
+             "result['internal_tags']['flag']['offset'] == o2 and result['internal_tags']['flag']['bit'] == bit and result['internal_tags']['flag']['data_type'] == 'BOOL'",
+             "result['internal_tags']['arr']['offset'] == o3 and result['internal_tags']['arr']['array'] == n and result['internal_tags']['arr']['data_type'] == 'INT'",
+             "result['internal_tags']['arr']['type_class'].length == n and result['internal_tags']['arr']['type_class'].element_type is pycomm3.cip.data_types.INT",
+             "result['template'] is template", "'string' not in result",
+             "result['type_class'].size == size and result['type_class'].bits == {'flag': (o2, bit)} and result['type_class'].private == {'ZZZZZZZZZZMyUdt1'}",
+             "[m.name for m in result['type_class'].members] == ['x', 'ZZZZZZZZZZMyUdt1', 'arr']"],
+    props=["C05"], max_paths=20000)
+contract(
+    id="upload.template.string", func=LD + "._parse_template_data", call="d._parse_template_data(data, template, 0x8FCE)",
+    params={"cap": P.int(1, 65535)},
+    setup=[f"d = {LD}('10.0.0.1')", "d._cache = {'tag_name:id': {}, 'id:struct': {}, 'handle:id': {}, 'id:udt': {}}",
+           "data = spec.logix.template_member_info(0, 0xC4, 0) + spec.logix.template_member_info(cap, 0xC2, 4) + b'MyString;n\\x00LEN\\x00DATA\\x00'",
+           "template = {'object_definition_size': 30, 'structure_size': cap + 4, 'member_count': 2, 'structure_handle': 0x0FCE}"],
+    ensures=["result['name'] == 'MyString'", "result['attributes'] == ['LEN', 'DATA']", "result['string'] == cap",
+             "result['type_class'].size == cap", "issubclass(result['type_class'], pycomm3.cip.data_types.StringDataType)"],
+    props=["C05"], max_paths=20000)
